@@ -372,6 +372,22 @@ def _work(idxs):
             res["insns"] = sum(M.insn_count.values())
             goals = p.goals(M, finals)
             res["nq"] = len(goals)
+            # vacuity guard: the hypotheses of the probe's main goal must be satisfiable (otherwise every goal
+            # "holds" for no input at all)
+            main = [g for g in goals if g.name.startswith(("value", "linearization", "trace", "param", "arg", "bits", "byte", "vararg", "ret"))] or goals[:1]
+            if main and (len(main[0].hyps) <= 30 or hash(p.key) % 5 == 0):
+                vs = z3.Solver()
+                vs.set("timeout", 20000)
+                vs.add(*M.assumes)
+                vs.add(*main[0].hyps)
+                vr = vs.check()
+                if vr == z3.unsat:
+                    res["status"] = "inconclusive"
+                    res["detail"] = "vacuous: the hypotheses of goal %s are unsatisfiable" % main[0].name
+                    res["secs"] = time.time() - t1
+                    results.append(res)
+                    continue
+                res["witness"] = 1 if vr == z3.sat else 0
             for g in goals:
                 st, model = asmx.prove(M, g.hyps, g.goal, timeout_ms=p.timeout_ms)
                 if st == "proved":
@@ -526,6 +542,7 @@ def run_probes(chk, probes, workers=None, chunk=24):
             chk.add(r["key"], st, r["detail"], r["secs"], replay=rp, family=r["family"])
             nq += r["nq"]
     chk.extra["solver_queries"] = chk.extra.get("solver_queries", 0) + nq
+    chk.witnesses += sum(r.get("witness", 0) for rs in allres for r in rs)
     paths = sum(r.get("paths", 0) for rs in allres for r in rs)
     insns = sum(r.get("insns", 0) for rs in allres for r in rs)
     chk.extra["paths_explored"] = chk.extra.get("paths_explored", 0) + paths
